@@ -412,7 +412,8 @@ static void check_time(KSI_CalendarHashChain *c, const int *dirs, int n, uint64_
 	vf_count("impl_calls", 1);
 	if (P >= 0x8000000000000000ULL) {
 		/* beyond the signed 64-bit time domain: only "no wrong time accepted" */
-		if (res == KSI_OK && (rr != 0 || (uint64_t)got != et)) vf_fail("caltime-wrong-accepted", "P=%llu n=%d: library derived %lld, reference %s", (unsigned long long)P, n, (long long)got, rr ? "impossible" : "other");
+		/* the result type is a signed time: a derived time of 2^63 or more cannot be reported at all (a negative value is not that time) */
+		if (res == KSI_OK && (rr != 0 || got < 0 || (uint64_t)got != et)) vf_fail("caltime-wrong-accepted", "P=%llu n=%d: library derived %lld, reference %s", (unsigned long long)P, n, (long long)got, rr ? "impossible" : got < 0 ? "a time that does not fit the signed result" : "other");
 		return;
 	}
 	if (rr == 0) {
